@@ -160,6 +160,13 @@ var (
 		"2020-01-01T00:00:00Z", "2020-01-01T00:00:01Z", "2019-12-31T23:30:00Z", "2021-06-15T12:00:00Z",
 		"1999-12-31T23:59:59Z", "2000-02-29T10:00:00Z",
 	}
+	// near-colliding renderings: values that differ only past the sixth decimal (%032f keeps six), subnormals, -0 / 0,
+	// neighbours in the last ulp, very large magnitudes
+	floatsNear = []float64{1e-7, 2e-7, 0.1234567, 0.1234568, 5e-324, 1e-323, 0, math.Copysign(0, -1), 1, math.Nextafter(1, 2),
+		1e300, math.Nextafter(1e300, 2e300), 1e30, math.Nextafter(1e30, 2e30), 2.5, 2.5000001, 1048576.75, 1048576.7500001}
+	// the same digits as int64 and as text, texts that differ in outer white space or in leading zeros
+	digitTexts = []string{"5", "05", "5 ", " 5", "10", "-3"}
+	digitInts  = []int64{5, 10, -3}
 	strsD12 = []string{"a", "b", "ab", "abc", "u", "t", "x", "k1", "k2"}
 	strsOut = []string{" a", "a ", "a", "\ta", "", "  "}
 )
@@ -171,7 +178,7 @@ func pickS(r *rand.Rand, a []string) string   { return a[r.Intn(len(a))] }
 // column kinds the generator knows; "D" variants stay inside the comparable domain D12
 var colKindsD12 = []string{"intD", "floatD", "textD", "timeD", "node", "pred", "strD", "bool"}
 var colKindsAll = []string{"intD", "floatD", "textD", "timeD", "node", "pred", "strD", "bool",
-	"int", "float", "text", "time", "str", "blob", "null", "tpred"}
+	"int", "float", "text", "time", "str", "blob", "null", "tpred", "floatN", "digits", "floatN", "digitsT"}
 
 func genCell(r *rand.Rand, kind string) *table.Cell {
 	switch kind {
@@ -189,6 +196,15 @@ func genCell(r *rand.Rand, kind string) *table.Cell {
 			return &table.Cell{L: mustLit(literal.Float64, pickF(r, floatsOut))}
 		}
 		return &table.Cell{L: mustLit(literal.Float64, pickF(r, floatsD12))}
+	case "floatN":
+		return &table.Cell{L: mustLit(literal.Float64, pickF(r, floatsNear))}
+	case "digits": // int64 and text literals with the same digits in one column
+		if r.Intn(2) == 0 {
+			return &table.Cell{L: mustLit(literal.Int64, pickI(r, digitInts))}
+		}
+		return &table.Cell{L: mustLit(literal.Text, pickS(r, digitTexts))}
+	case "digitsT":
+		return &table.Cell{L: mustLit(literal.Text, pickS(r, digitTexts))}
 	case "textD":
 		return &table.Cell{L: mustLit(literal.Text, pickS(r, textsD12))}
 	case "text":
